@@ -341,5 +341,7 @@ def run(ctx):
                        "_tzparser.parse: rule time after '/'")
     from ..rules_common import check_presence_tests, ARG_SCOPE
     check_presence_tests(ctx, "C08.PRESENCE", classes=ARG_SCOPE.get("C08", []))
+    from ..rules_common import check_param_rebinding
+    check_param_rebinding(ctx, "C08.PARAMS", classes=ARG_SCOPE.get("C08", []))
 
 
